@@ -701,6 +701,15 @@ def check(ctx):
                 steps.append(("Z", 3, wd, []))
             steps.append(("R", (0, 0), two, "list", dict(same_rows=bool(k), prestr=pre)))
         cases.append(dict(h=3, w=widths[0], junk=[], cursor=(0, 0), hide=True, pyte=False, pair=True, steps=steps))
+    # unformatted rows whose (clipped) text reads like the str() of a cache placeholder (None for a blank / uncached row) or of
+    # another falsy value: on a first render, after a resize, over a blank row, after a blank render
+    for text, wd in (("None", 4), ("None", 6), ("Nonesuch", 4), ("", 4), ("0", 4), ("False", 5), ("Falsehood", 5), ("[]", 4), ("{}", 4)):
+        row = [[(text, {})]] if text else [[]]
+        for cont in ("list", "fsarray:%d" % wd, "mixed"):
+            cases.append(dict(h=2, w=wd, junk=[[("#", ())] * wd] * 2, cursor=(0, 0), hide=True, pyte=False, pair=True,
+                              steps=[("R", (0, 0), row, cont), ("R", (1, 0), [], "list"), ("R", (0, 0), [[]] + row, cont),
+                                     ("Z", 3, wd, [[("~", ())] * wd] * 3), ("R", (0, 0), row + row, cont),
+                                     ("R", (0, 0), [[("x", red)]], "list"), ("R", (0, 0), [[]] + row, cont)]))
     # OUTSIDE the domain (control characters in a row): shown, not judged, not tied.  The window writes the newline as it
     # is; the terminal moves down a row instead of showing a glyph, so the screen no longer equals the array (the model's
     # `put` would store it as a cell - which is why `Glyphs` excludes control characters).
